@@ -11,6 +11,7 @@ L3 (A): each program emitted by TLC with its path coefficients is built from the
 """
 from __future__ import annotations
 
+import contextlib
 import json
 import math
 import random
@@ -156,6 +157,26 @@ def check_program(rep: Report, prog: Dict[str, Any], rng: random.Random, n_trial
         if float((gx - gr).abs().max()) > 1e-9 * max(1.0, float(gr.abs().max())):
             rep.violation(f"x.grad is not the derivative of the computed expression (par={par}, taus={taus}, branches={kinds})", dict(case, kind="nonlinear_bwd", kinds=kinds), key="nonlinear_bwd")
             return
+        # (b2) inputs that do not require grad (frozen trunk, plain data, torch.no_grad()) with branches whose first op works
+        # IN PLACE (nn.ReLU(inplace=True), t.mul_()): the branch input handed out by the split must not share memory with
+        # the skip connection or with the caller's tensor
+        for ctx in ("frozen", "no_grad"):
+            def inplace_branch(h, A=mats[0]):
+                return torch.relu_(h).mul_(1.5) @ A.t()
+            xin = x0.clone()
+            keep = xin.clone()
+            tau0 = taus[0]
+            with (torch.no_grad() if ctx == "no_grad" else contextlib.nullcontext()):
+                if trial % 2:
+                    yb = U.residual_apply(inplace_branch, xin, tau0)
+                else:
+                    res_, skip_ = U.residual_split(xin, tau0)
+                    yb = U.residual_add(inplace_branch(res_), skip_, tau0)
+            want = (keep + tau0 * ((torch.relu(keep) * 1.5) @ mats[0].t())) / math.sqrt(1 + tau0 * tau0)
+            if not torch.equal(xin, keep) or float((yb - want).abs().max()) > 1e-10 * max(1.0, float(want.abs().max())):
+                rep.violation(f"residual layer on an input that does not require grad ({ctx}) with an in-place branch: caller's tensor modified={not torch.equal(xin, keep)}, value differs from (x + tau f(x))/sqrt(1+tau^2)={float((yb - want).abs().max()):.3g} (tau={tau0})",
+                              dict(case, kind="inplace_branch", ctx=ctx), key=f"inplace_branch:{ctx}")
+                return
         # (c) residual_apply is bitwise the split / f / add sequence
         xa = x0.clone().requires_grad_(True)
         ya = run_real(par, taus, fns, xa, True, {})
